@@ -370,6 +370,12 @@ func (e *bEnv) FetchSourcePackage(ctx context.Context, sourceType string, u *url
 				os.Mkdir(filepath.Join(targetDir, "empty"), 0750)
 				os.WriteFile(filepath.Join(targetDir, "exe"), []byte(fmt.Sprintf("content-%d exe", f.Content)), 0755)
 				os.Chmod(filepath.Join(targetDir, "m", "f"), 0600)
+				// a package that keeps what the built-in rules exclude, through its own rule file
+				os.WriteFile(filepath.Join(targetDir, ".terraformignore"), []byte("!.git/\n!.terraform/\n"), 0644)
+				os.MkdirAll(filepath.Join(targetDir, ".git"), 0755)
+				os.WriteFile(filepath.Join(targetDir, ".git", "keep"), []byte(fmt.Sprintf("content-%d git", f.Content)), 0644)
+				os.MkdirAll(filepath.Join(targetDir, "m", ".terraform", "x"), 0755)
+				os.WriteFile(filepath.Join(targetDir, "m", ".terraform", "x", "state"), []byte(fmt.Sprintf("content-%d tf", f.Content)), 0644)
 			}
 			var resp sourcebundle.FetchSourcePackageResponse
 			if f.Meta {
